@@ -47,6 +47,8 @@ let rec handle toks =
   let is_bss = (match toks with op :: _ -> (String.length op >= 3 && String.sub op 0 3 = "bss") || (String.length op >= 8 && String.sub op 0 8 = "spec_bss") | [] -> false) in
   if total > 300000 || (is_bss && total > 20000) then "SKIP" else
   match toks with
+  | ["plain_decg"; "bad"; _; _] -> "ERR -1"
+  | ["plain_decg"; ty; count; data] -> handle ["plain_dec"; ty; count; data]   (* carquet_decode_plain only dispatches *)
   | ["plain_encp"; ty; vals; pre] -> with_prefix 1 pre (handle ["plain_enc"; ty; vals])
   | ["dl_encp"; vals; pre] -> with_prefix 1 pre (handle ["dl_enc"; vals])
   | ["ds_encp"; vals; pre] -> with_prefix 1 pre (handle ["ds_enc"; vals])
